@@ -38,7 +38,9 @@ type FuncContract struct {
 	PkgPath  string // package path the contract file belongs to ("" for extern specs)
 	Props    []string
 	Requires []Clause
+	Defines  []Clause // definitional axioms about spec functions, assumed only when verifying this function's body
 	Ensures  []Clause
+	TrustedEnsures []Clause // assumed at call sites, NOT checked against the body (listed as assumptions)
 	Assigns  []Clause // each a location expression
 	HasAssigns bool
 	AssignsEverything bool
@@ -322,6 +324,11 @@ func (cs *Contracts) LoadContractFile(file, pkgPath string) error {
 		if body == "" || strings.HasPrefix(body, "//") || strings.HasPrefix(body, "#") {
 			continue
 		}
+		if len(lines) > 0 && strings.HasSuffix(lines[len(lines)-1].text, "\\") {
+			prev := strings.TrimSuffix(lines[len(lines)-1].text, "\\")
+			lines[len(lines)-1].text = strings.TrimSpace(prev) + " " + strings.TrimPrefix(body, "\\")
+			continue
+		}
 		if strings.HasPrefix(body, "\\") && len(lines) > 0 {
 			lines[len(lines)-1].text += " " + strings.TrimSpace(body[1:])
 			continue
@@ -382,6 +389,24 @@ func (cs *Contracts) LoadContractFile(file, pkgPath string) error {
 			} else {
 				cur.Ensures = append(cur.Ensures, c)
 			}
+		case "trusted-ensures":
+			if cur == nil {
+				return fmt.Errorf("%s:%d: trusted-ensures outside func", file, rl.line)
+			}
+			c, err := mk(rest)
+			if err != nil {
+				return err
+			}
+			cur.TrustedEnsures = append(cur.TrustedEnsures, c)
+		case "defines":
+			if cur == nil {
+				return fmt.Errorf("%s:%d: defines outside func", file, rl.line)
+			}
+			c, err := mk(rest)
+			if err != nil {
+				return err
+			}
+			cur.Defines = append(cur.Defines, c)
 		case "let":
 			if cur == nil {
 				return fmt.Errorf("%s:%d: let outside func", file, rl.line)
